@@ -144,6 +144,26 @@ def run_registry(pid, spec, tier, seed, replay=None):
     return {"violations": viols, "crashes": crashes, "coverage": cov, "trace_files": traces}
 
 
+def run_c15(pid, spec, tier, seed, replay=None):
+    """C15: free-running concurrent programs (real parallelism, random delays at yield points, frames delivered at
+    once) recorded and validated by the trace specification in monitor mode; the harness and the library are built
+    with the Go race detector, whose reports are attributed here (auxiliary monitor, DESIGN section 8)."""
+    binary = orch.build_harness(race=True)
+    if replay:
+        scenarios = [json.load(open(os.path.join(replay, "script.json")))["scenario"]] * 5
+    else:
+        scenarios = spec[tier](seed)
+    d, traces, crashes = orch.execute(binary, scenarios, "%s-%s" % (pid, tier), timeout=1500)
+    viols, lines, states = orch.validate(traces)
+    n, distinct = orch.count_traces(traces)
+    cov = {"states": states, "transitions": states, "traces_validated_against_impl": n, "evaluations": n, "distinct_nontrivial": distinct,
+           "rule": "one evaluation = one generated concurrent program (4-16 RPCs of mixed shapes, one sender and one receiver goroutine per RPC end, "
+                   "Header/Trailer readers, optional Close/cancel/failure at a random event count) executed free-running under the race detector and "
+                   "validated against spec/TunnelMon.tla; distinct by hash of the recorded (frame, result) sequence",
+           "exhaustive": False, "trace_events": lines, "scenarios": len(scenarios), "race_detector": True}
+    return {"violations": viols, "crashes": crashes, "coverage": cov, "trace_files": traces}
+
+
 def run_c17(pid, spec, tier, seed, replay=None):
     """C17: single-tunnel identity observations (TunnelMon) plus RPCs spread over several reverse tunnels (RegistryMon)"""
     res = run(pid, dict(spec, runner=None), tier, seed, replay)
@@ -191,7 +211,8 @@ PROPS = {
                                + gen.fam_gates(s, 3, gates=["cli.alloc", "cli.new.sent", "car.sent.c2s.new", "car.sent.c2s.msg", "car.sent.s2c.msg", "srv.watch.fired"], faults=("none", "cancel@park", "cancel")),
             "thorough": lambda s: gen.fam_data(s, 600, big=True) + gen.fam_life(s, 0) + gen.fam_cancel(s, 0) + gen.fam_gates(s, 0)},
     "C13": {"level": "model_checking",
-            "quick": lambda s: gen.fam_data(s, 48) + gen.fam_cancel(s, 4, policies=("eager", "slowcli"), fcs=("fc",)) + gen.fam_indep(s, 4, policies=("random",)),
+            "quick": lambda s: gen.fam_data(s, 48) + gen.fam_cancel(s, 4, policies=("eager", "slowcli"), fcs=("fc",)) + gen.fam_indep(s, 4, policies=("random",))
+                               + gen.fam_free(s, 48) + [x for x in gen.fam_hostile_srv(s) if "-off-" in x["name"] or "-legacy-" in x["name"]][:60] + gen.fam_neg(s)[:40],
             "thorough": lambda s: gen.fam_data(s, 400, big=True) + gen.fam_cancel(s, 0) + gen.fam_indep(s, 0) + gen.fam_life(s, 12) + gen.fam_gates(s, 4)},
     "C06": {"level": "model_checking",
             "quick": lambda s: gen.fam_data(s, 64),
@@ -233,6 +254,15 @@ PROPS = {
     "C12": {"level": "model_checking", "runner": run_registry, "engine": "tlc-registry", "hang": True,
             "also": ["C14_ServeLeavesNothing", "C14_RegistryEmptyAtEnd", "C10_NoNewTunnels", "C10_StopMeansStopped"],
             "technique": "TLC model checking of Registry.tla (two-step registration, unregister, round robin, callbacks) + TLA+ trace validation of multi-tunnel histories of the real handler (RegistryMon.tla)"},
+    "C15": {"level": "exploration", "runner": run_c15, "hang": True, "race": True,
+            "also": ["C01_", "C02_", "C03_B", "C04_", "C05_", "C06_", "C07_", "C08_", "C13_", "C14_", "C16_", "C17_"],
+            "quick": lambda s: gen.fam_free(s, 64) + [x for x in gen.fam_meta(s, 32, gated=False) if "meta-bin" not in x["name"]],
+            "thorough": lambda s: sum((gen.fam_free(s + i, 400) for i in range(4)), []) + [x for x in gen.fam_meta(s, 200, gated=False) if "meta-bin" not in x["name"]] + gen.fam_data(s, 100),
+            "technique": "TLA+ trace validation (monitor mode) of free-running concurrent executions; Go race detector attached as auxiliary monitor",
+            "text": "thread-safety is decided as conformance of concurrent executions: every free-running execution of a generated concurrent program, recorded with "
+                    "call/return intervals and lock-ordered wire events, must satisfy every observation-level formula of the trace specification (the concurrent history is "
+                    "explainable by the sequential meaning of the API), must not panic or deadlock, and must leave nothing behind; data races without observable effect are "
+                    "outside what a TLA+ specification can express and are reported by the Go race detector attached to the same runs"},
     "C17": {"level": "model_checking", "runner": run_c17,
             "quick": lambda s: gen.fam_meta(s, 96, gated=False) + gen.fam_data(s, 32) + gen.fam_ids(s, 16),
             "thorough": lambda s: gen.fam_meta(s, 600, gated=False) + gen.fam_data(s, 200) + gen.fam_ids(s, 100)},
@@ -240,9 +270,10 @@ PROPS = {
             "technique": "TLA+ reference function (GrpcTimeout.tla); TLC enumerates the input domain and validates every observed handler deadline",
             "text": "the gRPC wire rule for grpc-timeout is a total TLA+ function; TLC enumerates the structured input domain completely, each input is executed "
                     "through the public API against the real tunnel inside a synctest bubble (virtual time), and TLC checks the three C18 formulas on each observation"},
-    "C10": {"level": "model_checking", "hang": True,
-            "quick": lambda s: gen.fam_shutdown(s, 8),
-            "thorough": lambda s: gen.fam_shutdown(s, 0)},
+    "C10": {"level": "model_checking", "hang": True, "runner": run_c17,
+            "also": ["C04_ClientObserves", "C04_ServerObserves", "C04_HandlersReleased", "C04_CallsEnd"],
+            "quick": lambda s: gen.fam_shutdown(s, 6) + gen.fam_life(s, 4, causes=("gstop+stop", "stop"), dirs=("rev",), fcs=("fc",), policies=("eager", "lazy")),
+            "thorough": lambda s: gen.fam_shutdown(s, 0) + gen.fam_life(s, 0, causes=("gstop+stop", "stop"), dirs=("rev",))},
 }
 
 
